@@ -56,11 +56,16 @@ MUTATORS_SEQ = {'extend', 'update', 'collect'}
 
 
 class Flow:
-    def __init__(self, repo, max_depth=4):
+    def __init__(self, repo, max_depth=3):
         self.repo = repo
         self.max_depth = max_depth
         self._defs = {}
         self._memo = {}
+        self._cmemo = {}
+        self._nested = {}
+        self._modfunc = {}
+        self._rcache = {}
+        self._lscope = {}
         self._tables = {}
         self._partial = {}
         self._allocs = {}
@@ -623,17 +628,26 @@ class Flow:
         for sc in self._scope_chain(fn):
             if name in Q.params(sc.node) or name in self.defs(sc.node):
                 return None
-            for n in walk_no_nested(sc.node):
-                if isinstance(n, (ast.FunctionDef, ast.AsyncFunctionDef)) \
-                        and n.name == name and getattr(n, '_func', None):
-                    return n._func
-        try:
-            r = self.repo.resolve_symbol(fn.module.name, name)
-        except Exception:
-            r = None
-        if r is not None and r[0] == 'func':
-            return r[1]
-        return None
+            nd = self._nested.get(id(sc.node))
+            if nd is None:
+                nd = {}
+                for n in walk_no_nested(sc.node):
+                    if isinstance(n, (ast.FunctionDef,
+                                      ast.AsyncFunctionDef)) and getattr(
+                                          n, '_func', None):
+                        nd[n.name] = n._func
+                self._nested[id(sc.node)] = nd
+            if name in nd:
+                return nd[name]
+        key = (fn.module.name, name)
+        if key not in self._modfunc:
+            try:
+                r = self.repo.resolve_symbol(fn.module.name, name)
+            except Exception:
+                r = None
+            self._modfunc[key] = r[1] if r is not None and r[0] == 'func' \
+                else None
+        return self._modfunc[key]
 
     def _name_atoms(self, name, fn, bind, depth, _seen):
         out = set()
@@ -912,10 +926,21 @@ class Flow:
     # -- calls ---------------------------------------------------------------
     def resolve_call(self, call, fn):
         """FuncInfo of the callee when it is a function of the repository."""
-        repo = self.repo
-        f = call.func
         if fn is None:
             return None
+        key = (id(call), fn.fq)
+        if key not in self._rcache:
+            self._rcache[key] = self._resolve_call(call, fn)
+        return self._rcache[key]
+
+    def _scope_of(self, fn):
+        if fn.fq not in self._lscope:
+            self._lscope[fn.fq] = self.repo.local_scope(fn)
+        return self._lscope[fn.fq]
+
+    def _resolve_call(self, call, fn):
+        repo = self.repo
+        f = call.func
         if isinstance(f, ast.Name):
             # nested def in an enclosing scope
             for sc in self._scope_chain(fn):
@@ -926,11 +951,20 @@ class Flow:
                         # must be lexically inside sc
                         return n._func
         if isinstance(f, (ast.Name, ast.Attribute)):
-            r = repo.resolve_expr(fn.module, f, repo.local_scope(fn))
+            r = repo.resolve_expr(fn.module, f, self._scope_of(fn))
             if r is not None and r[0] == 'func':
                 return r[1]
             if r is not None and r[0] == 'class':
                 return None
+        if isinstance(f, ast.Attribute) and isinstance(f.value, ast.Name) \
+                and f.value.id not in ('self', 'cls'):
+            # a local bound once to an instance of a repository class
+            # (`x = cls()` in a classmethod, `x = ClassName(...)`)
+            ci = self._local_instance_class(f.value.id, fn)
+            if ci is not None:
+                o, meth = ci.find_method(f.attr)
+                if meth is not None and getattr(meth, '_func', None):
+                    return meth._func
         if isinstance(f, ast.Attribute) and isinstance(f.value, ast.Name) \
                 and f.value.id in ('self', 'cls'):
             ci = fn.cls
@@ -949,6 +983,26 @@ class Flow:
                     o, meth = ci.find_method(f.attr)
                 if meth is not None:
                     return meth._func
+        return None
+
+    def _local_instance_class(self, name, fn):
+        for sc in self._scope_chain(fn):
+            ds = self.defs(sc.node).get(name)
+            if not ds:
+                if name in Q.params(sc.node):
+                    return None
+                continue
+            if len(ds) != 1 or ds[0][0] != 'value' or not isinstance(
+                    ds[0][1], ast.Call):
+                return None
+            cf = ds[0][1].func
+            if isinstance(cf, ast.Name) and cf.id == 'cls':
+                c = sc.cls or self.repo.enclosing_class(sc.node)
+                return c
+            # (instances of other repository classes are left opaque:
+            # following every method of every constructed object makes the
+            # closure explode on the writer classes)
+            return None
         return None
 
     def _returns(self, callee):
@@ -1001,6 +1055,16 @@ class Flow:
         return b
 
     def _call_atoms(self, e, fn, bind, depth, _seen):
+        key = (id(e), fn.fq if fn else None, self._bkey(bind), depth)
+        hit = self._cmemo.get(key)
+        if hit is not None:
+            return set(hit)
+        out = self._call_atoms_(e, fn, bind, depth, _seen)
+        if not self._partial:
+            self._cmemo[key] = frozenset(out)
+        return out
+
+    def _call_atoms_(self, e, fn, bind, depth, _seen):
         out = set()
         fname = unparse(e.func)
         A = lambda x: self.atoms(x, fn, bind, depth, _seen)  # noqa
